@@ -10,9 +10,10 @@ import (
 // Ops is the scripted file-server implementation: it logs every call, parks at the "impl" gate
 // (or asks Decide) and answers as told.
 type Ops struct {
-	C      *Ctl
-	Decide func(op string, r *go9p.SrvReq) Cmd // nil: park at the controller's "impl" gate
-	GateCb bool                                // park inside the FidDestroy / ConnClosed callbacks too (slow callbacks)
+	C            *Ctl
+	Decide       func(op string, r *go9p.SrvReq) Cmd // nil: park at the controller's "impl" gate
+	GateCb       bool                                // park inside the FidDestroy / ConnClosed callbacks too (slow callbacks)
+	GateCbAlways bool                                // ... also while the connection is alive
 }
 
 func (o *Ops) call(op string, r *go9p.SrvReq) {
@@ -166,12 +167,19 @@ func (o *Ops) ConnClosed(conn *go9p.Conn) {
 }
 
 func (o *Ops) FidDestroy(f *go9p.SrvFid) {
-	o.C.mu.Lock()
-	o.C.Events = append(o.C.Events, Event{"ev": "destroy", "c": o.C.connIdx[f.Fconn], "fid": go9p.VerifFidNo(f)})
-	gate := o.GateCb && o.C.Gated && o.C.connIdx[f.Fconn] == 0 && o.C.Conns[0].Closed
-	o.C.mu.Unlock()
+	c := o.C
+	c.mu.Lock()
+	gate := o.GateCb && c.Gated && c.connIdx[f.Fconn] == 0 && (o.GateCbAlways || c.Conns[0].Closed)
+	if !gate {
+		c.Events = append(c.Events, Event{"ev": "destroy", "c": c.connIdx[f.Fconn], "fid": go9p.VerifFidNo(f)})
+	}
+	c.mu.Unlock()
 	if gate {
-		o.C.park("cb_destroy", f.Fconn, nil)
+		// a slow callback: the notification counts as delivered when the call returns
+		c.park("cb_destroy", f.Fconn, nil)
+		c.mu.Lock()
+		c.Events = append(c.Events, Event{"ev": "destroy", "c": c.connIdx[f.Fconn], "fid": go9p.VerifFidNo(f)})
+		c.mu.Unlock()
 	}
 }
 
